@@ -10,6 +10,7 @@
 package main
 
 import (
+	"github.com/ogen-go/ogen/gen/ir"
 	"encoding/json"
 	"fmt"
 	"net/url"
@@ -137,6 +138,7 @@ type result struct {
 	Dump        string
 	ParseErr    string
 	GenErr      string
+	IRShape     string // name-free structural signature of what would be generated (operations, types, validators)
 	Panic       string
 	Expand      string // "" ok, else what differs
 	ExpandCause string
@@ -239,7 +241,162 @@ func run(d doc, withGen bool) (res result) {
 	if err := g.WriteSource(genfs.CheckFS{}, "api"); err != nil {
 		res.GenErr = "write: " + trunc(err.Error(), 400)
 	}
+	res.IRShape = irSignature(g)
 	return
+}
+
+// ---------- name-free signature of the intermediate representation ----------
+// Type names depend on where a schema is written (component name vs context), everything else the
+// templates turn into behaviour does not: kinds, primitives, JSON tags, wrappers, validators, sum
+// variants, which responses an operation has (a default response folded into the shared error type
+// by the convenient-errors reduction is gone from the operation), headers, content types.
+
+func irType(t *ir.Type, sb *strings.Builder, seen map[*ir.Type]int, depth int) {
+	if t == nil {
+		sb.WriteString("nil")
+		return
+	}
+	// a named primitive component is an alias type, its inlined copy the primitive itself: see through
+	for t.Kind == ir.KindAlias && t.AliasTo != nil {
+		t = t.AliasTo
+	}
+	// only a type on the current path is a back edge (recursion); a type merely shared between two
+	// places is written out again, as its inlined copy would be
+	if d, ok := seen[t]; ok {
+		fmt.Fprintf(sb, "^up%d", depth-d)
+		return
+	}
+	if depth > 12 {
+		sb.WriteString("...")
+		return
+	}
+	seen[t] = depth
+	defer delete(seen, t)
+	fmt.Fprintf(sb, "%s", t.Kind)
+	switch t.Kind {
+	case ir.KindPrimitive, ir.KindEnum:
+		fmt.Fprintf(sb, ":%s", t.Primitive)
+		for _, v := range t.EnumVariants {
+			fmt.Fprintf(sb, "|%v", v.Value)
+		}
+	case ir.KindAlias:
+		sb.WriteString("->")
+		irType(t.AliasTo, sb, seen, depth+1)
+	case ir.KindPointer:
+		fmt.Fprintf(sb, "*%v ", t.NilSemantic)
+		irType(t.PointerTo, sb, seen, depth+1)
+	case ir.KindGeneric:
+		fmt.Fprintf(sb, "<%v>", t.GenericVariant)
+		irType(t.GenericOf, sb, seen, depth+1)
+	case ir.KindArray, ir.KindMap:
+		fmt.Fprintf(sb, "[deny=%v pattern=%v]", t.DenyAdditionalProps, t.MapPattern)
+		irType(t.Item, sb, seen, depth+1)
+	case ir.KindSum:
+		fmt.Fprintf(sb, "(disc=%q", t.SumSpec.Discriminator)
+		var ms []string
+		for _, m := range t.SumSpec.Mapping {
+			ms = append(ms, m.Key)
+		}
+		sort.Strings(ms)
+		fmt.Fprintf(sb, " keys=%v", ms)
+		for _, v := range t.SumOf {
+			sb.WriteString(" | ")
+			irType(v, sb, seen, depth+1)
+		}
+		sb.WriteString(")")
+	case ir.KindStruct:
+		fmt.Fprintf(sb, "{deny=%v tuple=%v", t.DenyAdditionalProps, t.Tuple)
+		// the order of fields is not behaviour (member order of the JSON text, layout of a wrapper)
+		var fs []string
+		for _, f := range t.Fields {
+			req := false
+			if f.Spec != nil {
+				req = f.Spec.Required
+			}
+			var fb strings.Builder
+			fmt.Fprintf(&fb, " %q(inline=%v req=%v):", f.Tag.JSON, f.Inline, req)
+			irType(f.Type, &fb, seen, depth+1)
+			fs = append(fs, fb.String())
+		}
+		sort.Strings(fs)
+		sb.WriteString(strings.Join(fs, ""))
+		sb.WriteString("}")
+	}
+	v := t.Validators
+	if v.String.Set() || v.Int.Set() || v.Float.Set() || v.Array.Set() || v.Object.Set() {
+		fmt.Fprintf(sb, "!{str:%v/%v/%v/%v int:%+v float:%+v arr:%+v obj:%+v}", v.String.MinLength, v.String.MinLengthSet, v.String.MaxLength, v.String.MaxLengthSet, v.Int, v.Float, v.Array, v.Object)
+		if v.String.Regex != nil {
+			fmt.Fprintf(sb, "re=%q", v.String.Regex.String())
+		}
+	}
+}
+
+func irSignature(g *gen.Generator) string {
+	var sb strings.Builder
+	ops := append(append([]*ir.Operation{}, g.Operations()...), g.Webhooks()...)
+	sort.Slice(ops, func(i, j int) bool { return ops[i].Name < ops[j].Name })
+	for _, op := range ops {
+		seen := map[*ir.Type]int{}
+		fmt.Fprintf(&sb, "op %s webhook=%v\n", op.Name, op.WebhookInfo != nil)
+		for _, p := range op.Params {
+			fmt.Fprintf(&sb, "  param %q in=%s style=%v explode=%v required=%v: ", p.Spec.Name, p.Spec.In, p.Spec.Style, p.Spec.Explode, p.Spec.Required)
+			irType(p.Type, &sb, seen, 0)
+			sb.WriteString("\n")
+		}
+		if op.Request != nil {
+			var cts []string
+			for ct := range op.Request.Contents {
+				cts = append(cts, string(ct))
+			}
+			sort.Strings(cts)
+			for _, ct := range cts {
+				m := op.Request.Contents[ir.ContentType(ct)]
+				fmt.Fprintf(&sb, "  request %s enc=%v: ", ct, m.Encoding)
+				irType(m.Type, &sb, seen, 0)
+				sb.WriteString("\n")
+			}
+		}
+		resp := func(label string, r *ir.Response) {
+			if r == nil {
+				return
+			}
+			var hs []string
+			for h := range r.Headers {
+				hs = append(hs, h)
+			}
+			sort.Strings(hs)
+			fmt.Fprintf(&sb, "  response %s status=%v headers=%v", label, r.WithStatusCode, hs)
+			if r.NoContent != nil {
+				sb.WriteString(" nocontent: ")
+				irType(r.NoContent, &sb, seen, 0)
+			}
+			var cts []string
+			for ct := range r.Contents {
+				cts = append(cts, string(ct))
+			}
+			sort.Strings(cts)
+			for _, ct := range cts {
+				fmt.Fprintf(&sb, " %s: ", ct)
+				irType(r.Contents[ir.ContentType(ct)].Type, &sb, seen, 0)
+			}
+			sb.WriteString("\n")
+		}
+		if rs := op.Responses; rs != nil {
+			var codes []int
+			for c := range rs.StatusCode {
+				codes = append(codes, c)
+			}
+			sort.Ints(codes)
+			for _, c := range codes {
+				resp(fmt.Sprint(c), rs.StatusCode[c])
+			}
+			for i, pr := range rs.Pattern {
+				resp(fmt.Sprintf("%dXX", i+1), pr)
+			}
+			resp("default", rs.Default)
+		}
+	}
+	return sb.String()
 }
 
 // stripExamples removes every "Example:..." / "Examples:..." field (with its balanced value) from a dump.
@@ -540,11 +697,20 @@ func bases() []baseDoc {
 		base(M{"/a": M{"get": op("a", M{"security": []any{M{"K": []any{}}}})}}, M{"securitySchemes": M{"K": R("#/components/securitySchemes/K2"), "K2": M{"type": "apiKey", "in": "header", "name": "X-K"}}}, "3.0.3"))
 	add("everything at once",
 		base(M{
-			"/a/{id}": M{"parameters": []any{R("#/components/parameters/ID")}, "post": op("a", M{"parameters": []any{R("#/components/parameters/P")}, "requestBody": R("#/components/requestBodies/B"), "responses": M{"200": R("#/components/responses/R"), "default": R("#/components/responses/R")}})},
-			"/b/{id}": M{"put": op("b", M{"parameters": []any{R("#/components/parameters/ID"), R("#/components/parameters/P")}, "requestBody": R("#/components/requestBodies/B"), "responses": M{"200": M{"description": "x", "headers": M{"X-1": R("#/components/headers/H"), "X-2": R("#/components/headers/H")}, "content": M{"application/json": M{"schema": R("#/components/schemas/S")}}}}})}},
+			"/a/{id}": M{"parameters": []any{R("#/components/parameters/ID")}, "post": op("a", M{"parameters": []any{R("#/components/parameters/P")}, "requestBody": R("#/components/requestBodies/B"), "responses": M{"200": R("#/components/responses/R"), "default": R("#/components/responses/D")}})},
+			"/b/{id}": M{"put": op("b", M{"parameters": []any{R("#/components/parameters/ID"), R("#/components/parameters/P")}, "requestBody": R("#/components/requestBodies/B"), "responses": M{"200": M{"description": "x", "headers": M{"X-1": R("#/components/headers/H"), "X-2": R("#/components/headers/H")}, "content": M{"application/json": M{"schema": R("#/components/schemas/T")}}}}})}},
 			M{"parameters": M{"ID": M{"name": "id", "in": "path", "required": true, "schema": R("#/components/schemas/T")}, "P": param},
-				"requestBodies": M{"B": body}, "responses": M{"R": M{"description": "r", "headers": M{"X-H": R("#/components/headers/H")}, "content": M{"application/json": M{"schema": R("#/components/schemas/S")}}}},
+				"requestBodies": M{"B": body}, "responses": M{"R": M{"description": "r", "headers": M{"X-H": R("#/components/headers/H")}, "content": M{"application/json": M{"schema": R("#/components/schemas/S")}}}, "D": M{"description": "d", "content": M{"application/json": M{"schema": R("#/components/schemas/T")}}}},
 				"headers": M{"H": header}, "schemas": M{"S": M{"type": "object", "properties": M{"t": R("#/components/schemas/T")}}, "T": strS}}, "3.0.3"))
+	add("one response component for a status code and for default of the same operation",
+		base(M{"/a": M{"get": M{"operationId": "a", "responses": M{"200": R("#/components/responses/R"), "default": R("#/components/responses/R")}}}},
+			M{"responses": M{"R": M{"description": "r", "content": M{"application/json": M{"schema": R("#/components/schemas/S")}}}}, "schemas": M{"S": objS}}, "3.0.3"))
+	add("default response component shared by four operations (folded into the shared error type)",
+		base(M{"/a": M{"get": M{"operationId": "a", "responses": M{"200": M{"description": "ok"}, "default": R("#/components/responses/E")}}},
+			"/b": M{"get": M{"operationId": "b", "responses": M{"200": M{"description": "ok"}, "default": R("#/components/responses/E")}}},
+			"/c": M{"post": M{"operationId": "c", "responses": M{"201": M{"description": "ok"}, "default": R("#/components/responses/E")}}},
+			"/d": M{"get": M{"operationId": "d", "responses": M{"200": M{"description": "ok", "content": M{"application/json": M{"schema": strS}}}, "default": R("#/components/responses/E")}}}},
+			M{"responses": M{"E": M{"description": "e", "content": M{"application/json": M{"schema": M{"type": "object", "required": []any{"code"}, "properties": M{"code": M{"type": "integer"}, "msg": strS}}}}}}}, "3.0.3"))
 	// ----- multi-file topologies
 	head := func(paths M, comps M) M {
 		m := M{"openapi": "3.0.3", "info": M{"title": "t", "version": "1"}, "paths": paths}
@@ -832,6 +998,23 @@ func main() {
 					a := attrs("parsed-API-differs-between-reference-and-inlined-copy")
 					if stripExamples(j.ref.Dump) == stripExamples(res.Dump) {
 						a["cause"] = "examples-only"
+					}
+					r.Violation(a, len(j.chosen), k)
+				case res.IRShape != "" && j.ref.IRShape != "" && res.IRShape != j.ref.IRShape:
+					k.Detail = firstDiff(j.ref.IRShape, res.IRShape)
+					la, lb := strings.Split(j.ref.IRShape, "\n"), strings.Split(res.IRShape, "\n")
+					for i := 0; i < len(la) && i < len(lb); i++ {
+						if la[i] != lb[i] {
+							k.Detail = "referencing: " + trunc(la[i], 1800) + "\ninlined:     " + trunc(lb[i], 1800)
+							break
+						}
+					}
+					a := attrs("generated-code-shape-differs-between-reference-and-inlined-copy")
+					noStatus := func(s string) string {
+						return strings.ReplaceAll(strings.ReplaceAll(s, "status=true", "status=?"), "status=false", "status=?")
+					}
+					if noStatus(j.ref.IRShape) == noStatus(res.IRShape) {
+						a["cause"] = "status-code-wrapper-flag-only"
 					}
 					r.Violation(a, len(j.chosen), k)
 				case (res.GenErr == "") != (j.ref.GenErr == "") && (len(j.chosen) <= 2 || len(j.chosen) >= len(j.sites)-1):
